@@ -13,6 +13,7 @@ SOURCES = {
     "X": ["tbl", "t1", None, "x"],
     "Y": ["tbl", "t2", None, "y"],
     "S": ["tbl", "t4", "sch", None],
+    "P": ["tbl", "t5", None, None, {"for": ["between", ["systime"], ["raw", "2020-01-01"], ["raw", "2020-02-01"]]}],
 }
 PLAIN_KEYS = ("T", "U", "V")
 ALL_KEYS = tuple(SOURCES)
